@@ -10,13 +10,13 @@ package store
 import (
 	"bufio"
 	"context"
-	"os/exec"
 	"database/sql"
 	"encoding/json"
 	"errors"
 	"fmt"
 	"math/rand"
 	"os"
+	"os/exec"
 	"path/filepath"
 	"reflect"
 	"sort"
@@ -27,6 +27,7 @@ import (
 	aggsync "github.com/agglayer/aggkit/sync"
 	"github.com/ethereum/go-ethereum/common"
 
+	"verifharness/sqlfault"
 	"verifharness/tr"
 )
 
@@ -35,7 +36,7 @@ import (
 type Fault struct {
 	Kind string `json:"kind"` // none | stmt | ctx | commit | read | real (absolute statement index, thorough sweeps)
 	At   int    `json:"at"`
-	R    int    `json:"r"` // read: the R-th read after write At-1 fails (see authfault.go)
+	R    int    `json:"r"`    // read: the R-th read after write At-1 fails (see authfault.go)
 	Frac int    `json:"frac"` // read: > 0: the read at Frac/1000 of all reads of the operation fails (counted on the twin first)
 }
 
@@ -48,7 +49,11 @@ type Ev struct {
 }
 
 type Op struct {
-	Busy  bool   `json:"busy"` // a read cursor is held open on the store's connection pool while the operation runs
+	Busy bool `json:"busy"` // a read cursor is held open on the store's connection pool while the operation runs
+	// Peek: a reader looks at the store in the middle of the operation (all observations, from the goroutine that runs the
+	// operation, on other connections): k > 0 when the k-th write is compiled, k < 0 when the COMMIT is compiled. What it
+	// sees must be the state before the operation.
+	Peek  int    `json:"peek"`
 	Op    string `json:"op"` // process | reorg | restart
 	Num   uint64 `json:"num"`
 	Evs   []Ev   `json:"evs"`
@@ -132,24 +137,34 @@ func newInjector(path string) (*injector, error) {
 	return &injector{c: c}, nil
 }
 
+// exec runs a statement of the control connection; the store's lock may still be held for a moment by the operation that
+// was just interrupted (every connection of this process waits only 50 ms for a lock, see run.go): retried for 10 s
+func (i *injector) exec(q string, args ...any) error {
+	var err error
+	for deadline := time.Now().Add(10 * time.Second); ; {
+		if _, err = i.c.Exec(q, args...); err == nil || !strings.Contains(err.Error(), "locked") || time.Now().After(deadline) {
+			return err
+		}
+		time.Sleep(5 * time.Millisecond)
+	}
+}
+
 func (i *injector) arm(target int, slow bool) error {
 	s := 0
 	if slow {
 		s = 1
 	}
-	_, err := i.c.Exec(`UPDATE verif_ctl SET target = ?, cnt = 0, slow = ?`, target, s)
-	return err
+	return i.exec(`UPDATE verif_ctl SET target = ?, cnt = 0, slow = ?`, target, s)
 }
 
 // armCommit makes the COMMIT of the next transaction that inserts/deletes a block row fail (a deferred foreign key is
 // violated by a trigger; the violation is only detected at commit time).
 func (i *injector) armCommit() error {
-	_, err := i.c.Exec(`UPDATE verif_ctl SET commitfail = 1, target = 0, cnt = 0`)
-	return err
+	return i.exec(`UPDATE verif_ctl SET commitfail = 1, target = 0, cnt = 0`)
 }
 
 func (i *injector) disarm() error {
-	if _, err := i.c.Exec(`UPDATE verif_ctl SET commitfail = 0`); err != nil {
+	if err := i.exec(`UPDATE verif_ctl SET commitfail = 0`); err != nil {
 		return err
 	}
 	return i.arm(0, false)
@@ -382,6 +397,8 @@ type kindDriver interface {
 	reorged(from uint64) (rowsDeleted int)
 	// snapshot returns the named observations after an operation.
 	snapshot() tr.M
+	// peek returns what a concurrent reader gets from the look-ups that open no transaction of their own (nil: none)
+	peek() tr.M
 	// describe returns the trace form of a process op (events with the atoms the monitor needs).
 	describe(op Op) []tr.M
 	// realStmt maps a model statement number of this block to a real statement index.
@@ -527,6 +544,14 @@ func (r *runner) runOne(idx int, b Behaviour, mk func(dir string, rng *rand.Rand
 				}
 				go func() { time.Sleep(60 * time.Millisecond); cancel() }()
 			}
+			if op.Peek != 0 && (op.Fault.Kind == "" || op.Fault.Kind == "none") {
+				authPath = kd.dbPath()
+				sqlfault.Arm(authPath, sqlfault.Spec{W: max(op.Peek, 0), AtCommit: op.Peek < 0, Call: func() {
+					if s := kd.peek(); s != nil {
+						r.w.Emit(tr.M{"ev": "peek", "s": s})
+					}
+				}})
+			}
 			t0 := time.Now()
 			perr := kd.process(ctx, op)
 			cancel()
@@ -563,7 +588,16 @@ func (r *runner) runOne(idx int, b Behaviour, mk func(dir string, rng *rand.Rand
 					return err
 				}
 			}
+			if op.Peek != 0 && (op.Fault.Kind == "" || op.Fault.Kind == "none") {
+				authPath = kd.dbPath()
+				sqlfault.Arm(authPath, sqlfault.Spec{W: max(op.Peek, 0), AtCommit: op.Peek < 0, Call: func() {
+					if s := kd.peek(); s != nil {
+						r.w.Emit(tr.M{"ev": "peek", "s": s})
+					}
+				}})
+			}
 			perr := kd.reorg(context.Background(), op.From)
+			disarmAuth()
 			release()
 			if err := inj.disarm(); err != nil {
 				return fmt.Errorf("disarm: %w", err)
@@ -621,7 +655,6 @@ func sortBy2(ms []tr.M, k1, k2 string) {
 		return asInt(ms[i][k2]) < asInt(ms[j][k2])
 	})
 }
-
 
 // ---------------------------------------------------------------------------------------------- process death
 
